@@ -62,13 +62,14 @@ class Probe:
         if len(real) != len(ref):
             self.add('definition', clause, f'{len(real)} rows for {len(ref)} candles', s, kw)
             return
-        sc = scale ** degree
         seen = False
         for i in range(start, len(ref)):
             b = ref[i]
             if b is None:
                 continue
             a = real[i]
+            # `scale` may be one magnitude for the series or one per row (the magnitude of that row's own window)
+            sc = (scale[i] if isinstance(scale, list) else scale) ** degree
             seen = True
             if a is None or a != a:
                 # NaN where the textbook value is defined: kept apart from a wrong number (overflow, missing rows)
@@ -140,6 +141,12 @@ class C15(core.Check):
             c = indlib.candles(r, n, 'walk')
             c[:, 1:5] *= f
             out.append(Series(name, c))
+        # a market that collapses: prices 2^30 times larger in the first third, and one volume spike of 4e13 — a value
+        # computed from a window must be as precise as THAT WINDOW's numbers allow, not as the largest number ever seen
+        c = indlib.candles(r, n, 'walk')
+        c[:n // 3, 1:5] *= 2.0 ** 30
+        c[n // 4, 5] = 3.7e13
+        out.append(Series('collapse', c))
         long = Series('walk-long', indlib.candles(r, 2600, 'walk'))
         return out, long
 
@@ -222,6 +229,18 @@ class C15(core.Check):
 
         def c_sma(P):
             src_window('sma', R.sma, 5)(P)
+            # the mean of a window, to the precision of the window's own magnitude (also through the ma() selector)
+            coll = [s for s in series if s.kind == 'collapse']
+            for s in coll:
+                for p in (2, 5, 14):
+                    for st in ('close', 'volume') if 'volume' in SRC else ('close',):
+                        x = s.src(st)
+                        local = [max(abs(v) for v in x[max(0, i - p + 1):i + 1]) for i in range(len(x))]
+                        for name, kw in (('sma', {'period': p, 'source_type': st}), ('ma', {'period': p, 'matype': 0, 'source_type': st})):
+                            st_, out = indlib.call(ta[name], s.c, True, kw)
+                            if st_ == 'ok':
+                                P.value('value: mean of the window, to the window\'s own precision', ser(out), R.sma(x, p), s, kw,
+                                        [max(v, 1e-300) for v in local], rel=1e-7)
 
         def c_stddev(P):
             for p in self.periods(5, big):
